@@ -1,15 +1,16 @@
 package nut
 
 import (
-	"context"
 	"fmt"
 	"strconv"
 	"testing/synctest"
 	"time"
 
+	"0chain.net/chaincore/block"
 	"0chain.net/chaincore/node"
 	"0chain.net/chaincore/round"
 	"0chain.net/chaincore/threshold/bls"
+	"0chain.net/core/datastore"
 	"0chain.net/core/encryption"
 	"0chain.net/miner"
 
@@ -29,17 +30,19 @@ func init() {
 			"CalBlsGpSign -> computeRoundRandomSeed (plus the TryProposeBlock/StartVerification it triggers), or the exported mc.HandleVRFShare / mc.AddVRFShare directly (plan says which). " +
 			"Bypassed: HTTP decoding and node.ValidateSenderSignature (the sim transport authenticates the sender and hands the handler the sender node), " +
 			"the RoundWorker timeout loop and restartRound's network part (BumpLFBTicket, fetching the heaviest notarized block): a restart is the three calls restartRound itself makes at its end, " +
-			"miner.Round.Restart + IncrementTimeoutCount + RedoVrfShare. The previous round's seed is installed with SetRandomSeed. Oracle recomputes the seed from another share subset with the shipped recovery code on a peer's own DKG instance",
+			"miner.Round.Restart + IncrementTimeoutCount + RedoVrfShare. The previous round's seed is installed with SetRandomSeed. Besides shares, byzantine peers also send notarized-block messages " +
+			"without a valid notarization for the round under test (miner.NotarizedBlockHandler -> handleNotarizedBlockMessage), the other received message that can write the round's seed. Oracle recomputes the seed from another share subset with the shipped recovery code on a peer's own DKG instance",
 		Technique: "deterministic simulation: one real miner + sim peers with real DKG shares, byzantine share injection, round restarts, synctest bubble",
 		DesignRef: "6/C33, 3.2", Regime: "single-threaded event loop inside a synctest bubble; synctest.Wait() after every injected message",
 		Components: sim.Components{
-			Real: []string{"chaincore/threshold/bls (DKG, Sign, VerifySignature, CalBlsGpSign/RecoverGroupSig)", "miner (VRFShareHandler, MessageWorker, HandleVRFShare, AddVRFShare, verifyCachedVRFShares, ThresholdNumBLSSigReceived, computeRoundRandomSeed, GetBlsMessageForRound, RedoVrfShare/addMyVRFShare, Round.Restart)",
+			Real: []string{"chaincore/threshold/bls (DKG, Sign, VerifySignature, CalBlsGpSign/RecoverGroupSig)", "miner (VRFShareHandler, NotarizedBlockHandler/handleNotarizedBlockMessage, MessageWorker, HandleVRFShare, AddVRFShare, verifyCachedVRFShares, ThresholdNumBLSSigReceived, computeRoundRandomSeed, GetBlsMessageForRound, RedoVrfShare/addMyVRFShare, Round.Restart)",
 				"chaincore/round (AddVRFShare cap, timeout counter, Restart)", "chaincore/chain (LFB ticket worker, LFMB worker, magic block storage, genesis)"},
 			Sim:  []string{"peers' decision logic (which share, which tamper, when)", "transport incl. sender authentication", "clock", "round-timeout trigger"},
 			Stub: []string{"HTTP layer", "block/state fetch requestors (answer nothing)", "redis (empty in-memory datastore.Store)", "RocksDB (simulated disk)"},
 		},
 		Assumptions: []string{
 			"the transport authenticates the sender node (node.ValidateSenderSignature is modelled as passing for the node the plan names as sender)",
+			"a round seed 'produced by shares' means: present only while the round holds >= t verified shares; a seed written by any other received message that proves nothing is reported (the statement quantifies over shares only; this input class is an extension, named in the violation signature)",
 			"a share is valid iff it verifies, with the herumi pairing check run by the oracle, under the sender's own DKG public key share for the message of (round, the NUT's current timeout count, previous seed)",
 		},
 	})
@@ -70,8 +73,7 @@ func genC33(seed uint64, tier string) *sim.Plan {
 	if prev == 0 {
 		prev = 7
 	}
-	p := &sim.Plan{Cfg: map[string]int64{"miners": int64(n), "t": int64(t), "sharders": int64(sw.Range(1, 3)), "round": rn, "prev": prev,
-		"self_first": int64(sw.Intn(2))}}
+	p := &sim.Plan{Cfg: map[string]int64{"miners": int64(n), "t": int64(t), "sharders": int64(sw.Range(1, 3)), "round": rn, "prev": prev}}
 	byz := sw.Pick([]int{2, 3, 3}) // 0: honest only, 1: light, 2: heavy
 	epochs := r.Range(1, 4)
 	if tier == "thorough" {
@@ -115,6 +117,12 @@ func genC33(seed uint64, tier string) *sim.Plan {
 		if r.Bool(0.3) {
 			p.Steps = append(p.Steps, sim.Step{Op: "myshare"})
 		}
+		if byz > 0 && r.Bool(0.12) {
+			// somewhere in the epoch: a notarized-block message that proves nothing
+			at := len(p.Steps) - r.Intn(min(len(p.Steps), cnt+1)+1)
+			nb := sim.Step{Op: "nblock", A: r.Intn(n - 1), I: []int64{int64(r.Intn(1000)), int64(r.Intn(2))}}
+			p.Steps = append(p.Steps[:at], append([]sim.Step{nb}, p.Steps[at:]...)...)
+		}
 		p.Steps = append(p.Steps, sim.Step{Op: "restart", I: []int64{int64(r.Intn(2))}})
 	}
 	return p
@@ -132,6 +140,9 @@ type c33 struct {
 	prev int64
 	// delivered[(party id, share hex)] = tamper kind of the step that delivered it (for violation signatures)
 	delivered map[string]string
+	// round seeds that arrived inside (unverifiable) notarized-block messages
+	injected         map[int64]bool
+	reportedInjected bool
 }
 
 // blsMsg is the message an honest party at timeout count tc signs for the round:
@@ -187,7 +198,7 @@ func runC33(env *sim.Env, p *sim.Plan) *sim.Result {
 	w := NewWorld(WorldCfg{Seed: p.Seed, Miners: n, Sharders: int(p.CfgInt("sharders", 2)), T: t, Threshold: 66})
 	defer w.Close()
 	mc := w.MC
-	c := &c33{w: w, tr: tr, rn: p.CfgInt("round", 5), prev: p.CfgInt("prev", 12345), delivered: map[string]string{}}
+	c := &c33{w: w, tr: tr, rn: p.CfgInt("round", 5), prev: p.CfgInt("prev", 12345), delivered: map[string]string{}, injected: map[int64]bool{}}
 	if c.prev == 0 {
 		c.prev = 7
 	}
@@ -254,9 +265,15 @@ func runC33(env *sim.Env, p *sim.Plan) *sim.Result {
 			valid++
 		}
 		if len(shares) > t {
-			viol("shares", "more-than-threshold-shares", fmt.Sprintf("%d shares held, threshold %d", len(shares), t))
+			tr.Probe("more_than_threshold_shares_held") // not forbidden by the statement: any >= t verified shares recover the same seed
 		}
-		if c.mr.HasRandomSeed() {
+		if c.mr.HasRandomSeed() && c.injected[c.mr.GetRandomSeed()] {
+			// the round's seed is the one a peer put into a notarized-block message that carries no valid notarization
+			if !c.reportedInjected {
+				c.reportedInjected = true
+				viol("seed", "seed-taken-from-unverified-notarized-block", fmt.Sprintf("round %d has seed %x with %d verified shares (t=%d): it was copied from a notarized-block message whose notarization does not verify", c.rn, c.mr.GetRandomSeed(), valid, t))
+			}
+		} else if c.mr.HasRandomSeed() {
 			tr.Probe("seed_complete")
 			if valid < t {
 				viol("seed", "seed-below-threshold", fmt.Sprintf("seed %x present with %d verified shares, t=%d", c.mr.GetRandomSeed(), valid, t))
@@ -281,6 +298,9 @@ func runC33(env *sim.Env, p *sim.Plan) *sim.Result {
 				tr.Probe("compared_with_disjoint_member")
 			}
 		}
+		if !c.mr.HasRandomSeed() && valid >= t {
+			tr.Probe("threshold_verified_shares_held_but_no_seed") // liveness only, outside the statement (see NOTES.md)
+		}
 		tr.Event("state tc=%d shares=%d valid=%d seed=%x phase=%d", tc, len(shares), valid, c.mr.GetRandomSeed(), c.mr.GetPhase())
 		tr.State(fmt.Sprintf("%d/%d/%v/%d", tc, len(shares), c.mr.HasRandomSeed(), c.mr.GetPhase()))
 	}
@@ -295,6 +315,43 @@ func runC33(env *sim.Env, p *sim.Plan) *sim.Result {
 			tr.SimTime += d.Seconds()
 			tr.Event("wait %v", d)
 			tr.Outcome("wait")
+		case "nblock":
+			// a notarized-block message for the round under test whose block names an arbitrary round seed and carries
+			// no (or forged) tickets; sender: any miner
+			members := w.Miners[1:]
+			sender := members[st.A%len(members)]
+			b := block.NewBlock(mc.GetKey(), c.rn)
+			b.MinerID = sender.ID()
+			b.PrevHash = encryption.Hash(fmt.Sprintf("prev-%d", st.Int(0, 0)))
+			b.CreationDate = w.GB.CreationDate + 5
+			b.LatestFinalizedMagicBlockHash = w.GB.Hash
+			b.ClientStateHash = w.GB.ClientStateHash
+			x := int64(0x1234567) + st.Int(0, 0)
+			b.SetRoundRandomSeed(x)
+			b.HashBlock()
+			sig, err := sender.SS.Sign(b.Hash)
+			if err != nil {
+				panic(err)
+			}
+			b.Signature = sig
+			if st.Int(1, 0) == 1 {
+				b.VerificationTickets = []*block.VerificationTicket{{VerifierID: sender.ID(), Signature: flipHexBit(sig, 3)}}
+			}
+			c.injected[x] = true
+			e := datastore.GetEntityMetadata("block").Instance()
+			if err := datastore.FromMsgpack(datastore.ToMsgpack(b), e); err != nil {
+				panic(err)
+			}
+			ctx := node.WithSenderValidateFunc(node.WithNode(w.Ctx, sender.Node), func() error { return nil })
+			if _, err := miner.NotarizedBlockHandler(ctx, e); err != nil {
+				panic(err)
+			}
+			synctest.Wait()
+			time.Sleep(1100 * time.Millisecond)
+			synctest.Wait()
+			tr.Fault("notarized_block_message_without_notarization")
+			tr.Event("nblock from=%d rrs=%x tickets=%d", sender.Idx, x, len(b.VerificationTickets))
+			tr.Outcome("nblock")
 		case "myshare":
 			ok := mc.RedoVrfShare(w.Ctx, c.mr)
 			synctest.Wait()
@@ -310,6 +367,7 @@ func runC33(env *sim.Env, p *sim.Plan) *sim.Result {
 				continue
 			}
 			hadSeed := c.mr.HasRandomSeed()
+			c.reportedInjected = false
 			err := c.mr.Restart()
 			c.mr.IncrementTimeoutCount(c.prevSeed(), mc.GetMiners(c.rn))
 			redo := false
@@ -449,15 +507,13 @@ func (c *c33) deliver(from *node.Node, vr *round.VRFShare, via int64) {
 		vr.SetParty(from)
 		msg := miner.NewBlockMessage(miner.MessageVRFShare, from, nil, nil)
 		msg.VRFShare = vr
-		mc.HandleVRFShare(w3ctx(c.w.Ctx), msg)
+		mc.HandleVRFShare(c.w.Ctx, msg)
 	default:
 		vr.SetParty(from)
 		mc.AddVRFShare(c.w.Ctx, c.mr, vr)
 	}
 	synctest.Wait()
 }
-
-func w3ctx(ctx context.Context) context.Context { return ctx }
 
 func abs(x int) int {
 	if x < 0 {
